@@ -6,6 +6,7 @@ require (
 	github.com/anishathalye/porcupine v1.3.0
 	github.com/dtn7/dtn7-go v0.0.0
 	github.com/sirupsen/logrus v1.7.0
+	github.com/ulikunitz/xz v0.5.8
 )
 
 require (
